@@ -106,8 +106,10 @@ def collect(h):
     for rel, recv in ((BASE + "qnames/impl.go", r"names \*QNames"), (BASE + "containers/impl.go", r"cnt \*Containers"),
                       (BASE + "singletons/impl.go", r"st \*Singletons")):
         body = h.func_body(rel, r"^func \(" + recv + r"\) store\(", rel + " store()")
-        if len(re.findall(r"storage\.PutBatch\(", body)) != 1 or re.search(r"storage\.(Put|InsertIfNotExists|CompareAndSwap)\(", body):
-            raise h.Missing(f"{rel}: store(): expected exactly one storage.PutBatch and no other row write")
+        if len(re.findall(r"storage\.PutBatch\(", body)) != 1 or re.search(r"storage\.(Put|InsertIfNotExists|CompareAndSwap)\(", body) \
+                or not re.search(r"if\s+err\s*:=\s*storage\.PutBatch\(batch\);\s*err\s*!=\s*nil\s*\{\s*\n\s*return\s+fmt\.Errorf\(", body):
+            raise h.Missing(f"{rel}: store(): expected `if err := storage.PutBatch(batch); err != nil {{ return ... }}` "
+                            "(all rows in ONE PutBatch whose error aborts the store) and no other row write")
     rel = BASE + "qnames/rename.go"
     body = h.func_body(rel, r"^func renameQName\(", rel + " renameQName()")
     direct = re.findall(r"storage\.(?:Put|PutBatch|InsertIfNotExists|CompareAndSwap)\(", body)
